@@ -70,6 +70,76 @@ CHECKS.update({
         note="As C01."),
 })
 
+CHECKS.update({
+    "C02": dict(
+        technique="TLA+ protocol spec Integrator (buffer identity, copy vs alias) checked by TLC with negative control; "
+                  "step-by-step traces of every deterministic entry point validated by TLC against a reference "
+                  "solution of the specification's right-hand side",
+        level="model_checking",
+        text="TLC shows that for every method, full_output, includeOrigin and either in-place or replacing behaviour of "
+             "the integrator buffer the returned rows are the requested points and never change iff the wrapper copies "
+             "them (counterexample without the copy).  Every entry point x method x output option is run on random "
+             "bounded-rate and catalogue models; the rows observed after every step and the returned table are "
+             "validated by TLC (row count, origin row, immutability, |row - ref| <= tol).",
+        design="5 C02, 3.6, 4.3",
+        note="Trusted base: scipy DOP853 (rtol 1e-12) on the spec-derived right-hand side; catalogue transcriptions in "
+             "engine/catalogue.py; tolerances 1e-5 / 1e-7 relative (two orders above the code's solver settings)."),
+    "C04": dict(
+        technique="TLA+ stepping machine Jump checked exhaustively by TLC (safety + liveness); recorded attempts of "
+                  "real runs validated event by event by TLC (TR_Jump) with V recomputed by the specification",
+        level="model_checking",
+        text="MC_Jump instances (closed SIR, births with upper limit, single event, single state magnitude 2, "
+             "multi-transition with two-sided limits): WalkLaw, TimeStrict, one event per exact step, StopSound, "
+             "Terminates.  Real runs (exact / tau-leap, raw / gridded, fixed tau, epsilon) of random event models incl. "
+             "single-event and single-state shapes are recorded attempt by attempt from outside and accepted only if "
+             "every step is an enabled Jump action with x' = x + V.counts.",
+        design="5 C04, 3.7",
+        note="Wrappers see every attempt of _jump; a run slower than 20 s that still advances time is discarded; rates "
+             "are polynomial / Laurent so that TLC evaluates them exactly in Q."),
+    "C05": dict(
+        technique="TLC trace validation of the first-reaction mechanism (intercepted exponential draws vs spec rates in Q) "
+                  "+ exact-law statistics on TLC-enumerated jump chains",
+        level="model_checking",
+        text="Every exact step of recorded runs must show one exponential clock per positive-rate event with "
+             "scale*rate = 1 (rate = specification polynomial evaluated exactly), none for zero-rate events, chosen event "
+             "= unique minimum, waiting time = that minimum, draws from the global stream; the first-reaction theorem "
+             "then gives the law for every stream.  Second line: SIR final-size law (jump chain enumerated by TLC, exact "
+             "Fractions) and linear-chain occupancy against exact binomial acceptance regions (false alarm < 1e-8).",
+        design="5 C05",
+        note="numpy's exponential sampler trusted; if the draw pattern is not first-reaction shaped the mechanism is not "
+             "judged and only the law test applies."),
+    "C10": dict(
+        technique="TLC invariants ClosedConserves (ModelDef) and Conservation (Jump) + TLC oracle on random closed "
+                  "definitions + TLC trace validation of deterministic and stochastic runs of closed models",
+        level="model_checking",
+        text="Symbolic clause: the specification's ODE components sum to the zero polynomial for transition-only "
+             "definitions (exhaustive small scope; random full size incl. atoms, compared with PyGOM's report).  "
+             "Deterministic clause: TR_Integrator requires |sum(row) - sum(x0)| <= tol on every observed row of closed "
+             "models.  Stochastic clause: TR_Jump requires exact equality of the total on every recorded state.",
+        design="5 C10",
+        note="Deterministic tolerance as C02."),
+    "C11": dict(
+        technique="TLC exhaustive (InLimits, RejectedStepChangesNothing) + complete case table of the limit test + "
+                  "TLC trace validation of recorded runs",
+        level="model_checking",
+        text="Jump.tla instances cover lower / upper / two-sided / absent limits; the complete table limit kind x value "
+             "position for two states is replayed on _checkJump; recorded runs are rejected by TLC when a state is "
+             "outside its declared limits, an out-of-limit step was accepted, a legal step was rejected, or a rejected "
+             "step changed state or time.",
+        design="5 C11",
+        note="States that occur in a rate keep a lower limit >= 0 (inside the bounded non-negative rate quantifier)."),
+    "C15": dict(
+        technique="TLC GridLaw on every explored path + TLC trace validation of gridded output against the raw path of "
+                  "the same run",
+        level="model_checking",
+        text="Grid operators RowAt / CountsIn are defined in Jump.tla and the identity row(g2) = row(g1) + V.counts is "
+             "checked on every explored path; for real gridded runs the recorder keeps the raw path of the same run and "
+             "TLC requires one row per requested time, first row = x0, exact mode: row k = RowAt, counts = CountsIn per "
+             "event, consecutive rows differing by V.counts.",
+        design="5 C15",
+        note="Ties between event and grid times (probability 0) are discarded."),
+})
+
 NOT_APPLICABLE = {
     "C14": "stateless real-valued kernels (log/lgamma): no transitions or histories for a TLA+ model to decide; "
            "the decisive comparison is floating-point agreement with reference densities, a different technique "
